@@ -351,16 +351,12 @@ func (fc *fnCtx) runDefers(st *State, fr *frame, k func(*State)) {
 	run(st, len(ds)-1)
 }
 
-// checkFrame: every region changed by the function must agree with the entry
-// heap on every object allocated at entry that is not named in a modifies clause.
-func (fc *fnCtx) checkFrame(st *State, fr *frame, kind string) {
-	if fc.eff.flags["noframe"] || fc.spec == nil {
-		return
-	}
+// allowedTargets evaluates the modifies clauses of the function under verification in its entry
+// state: region -> objects that may be written ("*" = any object of that region).
+func (fc *fnCtx) allowedTargets(st *State, fr *frame) (map[string][]string, bool) {
 	sc := fc.specCtxFor(st, fr)
 	sc.heap = fr.entry
 	sc.now = fr.entryT
-	// allowed targets per region
 	allowed := map[string][]string{}
 	everything := false
 	for _, m := range fc.eff.modifiesFor() {
@@ -405,6 +401,11 @@ func (fc *fnCtx) checkFrame(st *State, fr *frame, kind string) {
 						for _, r := range []string{"map.dom", "map.get", "map.card"} {
 							allowed[r] = append(allowed[r], obj.T)
 						}
+					} else if l.Fun == "global" {
+						if id, ok := l.Args[0].(*Ident); ok {
+							rn := "global." + msc.pkg + "." + id.Name
+							allowed[rn] = append(allowed[rn], "*")
+						}
 					} else if l.Fun == "region" {
 						if id, ok := l.Args[0].(*Ident); ok {
 							name := id.Name
@@ -423,6 +424,46 @@ func (fc *fnCtx) checkFrame(st *State, fr *frame, kind string) {
 			}()
 		}
 	}
+	return allowed, everything
+}
+
+// checkWrite (property C19): a write to (region, obj) — a store executed by this function or a
+// location a callee's contract says it may modify — must hit an object this call allocated or a
+// location the function's own modifies clauses allow. Unlike the two-state frame obligation this
+// also sees transient writes that are undone before the function returns.
+func (fc *fnCtx) checkWrite(st *State, fr *frame, site, region, obj string, extra ...string) {
+	if fc.e.prop != "C19" || fc.top == nil || fc.spec == nil || fc.eff.flags["noframe"] {
+		return
+	}
+	if strings.HasPrefix(region, "cell.") || strings.HasPrefix(region, "range.") || strings.HasPrefix(region, "chan.") {
+		return
+	}
+	allowed, everything := fc.allowedTargets(st, fc.top)
+	if everything {
+		return
+	}
+	alts := []string{fmt.Sprintf("(>= (atime %s) %s)", obj, fc.top.entryT), eq(obj, "nil")}
+	if strings.HasPrefix(region, "global.") || region == "*" || obj == "" {
+		alts = []string{"false"} // not an object: only an explicit modifies clause allows it
+	}
+	alts = append(alts, extra...)
+	for _, t := range allowed[region] {
+		if t == "*" {
+			return
+		}
+		alts = append(alts, eq(obj, t))
+	}
+	fc.emit(st, fc.oblName(fr, fmt.Sprintf("writes.%s@%s", region, site)), "writes",
+		"a write to region "+region+" hits an object allocated by this call or named by the function's modifies clauses", "", or(alts...), []string{"C19"})
+}
+
+// checkFrame: every region changed by the function must agree with the entry
+// heap on every object allocated at entry that is not named in a modifies clause.
+func (fc *fnCtx) checkFrame(st *State, fr *frame, kind string) {
+	if fc.eff.flags["noframe"] || fc.spec == nil {
+		return
+	}
+	allowed, everything := fc.allowedTargets(st, fr)
 	if everything {
 		return
 	}
